@@ -285,7 +285,7 @@ def run(chk):
         return chk.finish()
     rng = common.Rng(chk.seed, PID)
     stats = {"docs": 0, "graphs": 0, "reads": 0, "disagreements": 0, "indent_variants": 0}
-    n_docs = 400 if chk.tier == "quick" else 6000
+    n_docs = 400 if chk.tier == "quick" else 20000
     docs = []
     cp = os.path.join(common.CORPUS, PID, "docs.json")
     if os.path.exists(cp):
@@ -371,7 +371,7 @@ def run(chk):
 
     # ---- stream 2: value graphs (sharing, cycles) -------------------------------
     if not chk.replay:
-        graphs = [gen_graph(rng) for _ in range(200 if chk.tier == "quick" else 3000)]
+        graphs = [gen_graph(rng) for _ in range(200 if chk.tier == "quick" else 12000)]
         graphs.append([("obj", [("r", 1), ("r", 1)]), ("obj", [("p", 1)])])          # diamond
         graphs.append([("obj", [("r", 0)])])                                          # self cycle
         graphs.append([("arr", [("r", 1), ("r", 1)]), ("arr", [("r", 2)]), ("obj", [("p", "leaf")])])
